@@ -2,11 +2,6 @@
 # ser(c, x) is the interface-level serialisation of x by converter c (IConv).  mkconv(ty, handlers) is the
 # converter make_converter returns (its own contract is in convert.py).
 
-SPEC("pane.convert", "make_converter", trusted=True, result_kind="conv",
-     raises=(lambda ty, handlers, exc: exc_is(exc, TypeError) or exc_is(exc, UnsupportedAnnotation), ["C04"]),
-     note="assumed here (contracted separately in contracts/convert.py): returns a converter satisfying IConv, deterministic in (ty, handlers), or raises TypeError/UnsupportedAnnotation")
-
-
 def mkconv(ty, handlers):
     return ret_make_converter(ty, handlers)
 
